@@ -2057,6 +2057,15 @@ func (e *Engine) tripCount(h *ssa.BasicBlock, ifr *frame, lc *loopCtx, iters []*
 		}
 		return unknown, ""
 	}
+	if ok && (bo.Op == token.LSS || bo.Op == token.GTR || bo.Op == token.LEQ || bo.Op == token.GEQ) && !lc.body[h.Succs[0]] && lc.body[h.Succs[1]] {
+		// `for { if end <= start { break }; … }`: leaves when the comparison holds, so it continues on its negation
+		c := e.val(ifr, bo)
+		neg := map[string]string{"<": ">=", ">=": "<", ">": "<=", "<=": ">"}
+		if c.Op == "binop" && len(c.Args) == 2 && neg[c.Name] != "" {
+			return e.tripCountOf(&Val{Op: "binop", Name: neg[c.Name], Args: c.Args, Type: c.Type}, bo, h, ifr, lc, iters, unknown)
+		}
+		return unknown, ""
+	}
 	if !ok || (bo.Op != token.LSS && bo.Op != token.GTR && bo.Op != token.LEQ && bo.Op != token.GEQ && bo.Op != token.NEQ) || !lc.body[h.Succs[0]] || lc.body[h.Succs[1]] {
 		return unknown, ""
 	}
@@ -2095,6 +2104,16 @@ func (e *Engine) tripCountOf(c *Val, bo *ssa.BinOp, h *ssa.BasicBlock, ifr *fram
 	}
 	if c.Op != "binop" || (c.Name != "<" && c.Name != ">" && c.Name != "<=" && c.Name != ">=") {
 		return unknown, ""
+	}
+	// the moving side on the right (`start < end` with end counted down, `0 < n`): the same test read from the other side
+	if len(c.Args) == 2 {
+		moves := func(v *Val) bool {
+			return v != nil && v.Contains(func(x *Val) bool { return x.Op == "loopvar" && x.ID == lc.id })
+		}
+		if !moves(c.Args[0]) && moves(c.Args[1]) {
+			flip := map[string]string{"<": ">", ">": "<", "<=": ">=", ">=": "<="}
+			c = &Val{Op: "binop", Name: flip[c.Name], Args: []*Val{c.Args[1], c.Args[0]}, Type: c.Type}
+		}
 	}
 	down := c.Name == ">" || c.Name == ">="
 	tested, bound := c.Args[0], c.Args[1]
